@@ -9,4 +9,7 @@ impl<T> RwLock<T> {
     pub fn new(v: T) -> (r: Self) ensures r.view() == v { unimplemented!() }
     #[verifier::external_body]
     pub fn read(&self) -> (r: &T) ensures *r == self.view() { unimplemented!() }
+    /// (only used for reading through a write guard in the functions under contract)
+    #[verifier::external_body]
+    pub fn write(&self) -> (r: &T) ensures *r == self.view() { unimplemented!() }
 }
